@@ -722,21 +722,28 @@ class Evaluator:
             chk.sample({"case": j.case(plist[-1])[:200], "kind": j.kind, "impl": Ls[-1][:200]})
 
     def crash_fallback(self, j, plist, Lline):
-        """the library died somewhere in this job: find the partition(s)"""
+        """the library died somewhere in this job: find a partition on which it does (bounded search)"""
         chk = self.chk
-        sub = plist if len(plist) <= 400 else plist[:1] + chk.rng.sample(plist[1:], 399)
-        lines = ["L %s %s %s" % (j.hex, p, j.resets) for p in sub]
-        out = self.run_c(lines)
+        self.fallbacks = getattr(self, "fallbacks", 0) + 1
+        chk.count("library-died")
+        if self.fallbacks > 12:
+            chk.fail(j.case(j.base), "the library dies on some partition of this job: %s" % Lline, extra={"cls": "crash"})
+            return
+        sub = plist if len(plist) <= 40 else plist[:1] + chk.rng.sample(plist[1:], 39)
         n = 0
-        for p, o in zip(sub, out):
-            if o is None or o.startswith("CRASH"):
-                n += 1
-                if n <= 3:
-                    s = self.run_c(["S %s %s %s" % (j.hex, p, j.resets)])[0]
+        for lo in range(0, len(sub), 8):
+            chunk = sub[lo:lo + 8]
+            out = vlib.run_lines(self.exe, ["L %s %s %s" % (j.hex, p, j.resets) for p in chunk], per_case_timeout=60)
+            for p, o in zip(chunk, out):
+                if o is None or o.startswith("CRASH"):
+                    n += 1
+                    s = vlib.run_lines(self.exe, ["S %s %s %s" % (j.hex, p, j.resets)])[0]
                     m = self.run_m([s])[0] if s and not s.startswith("CRASH") else None
                     chk.fail(j.case(p), "the library dies: %s" % (o or "no output"), extra={"cls": "crash"})
                     if m is not None and "MODEL-" not in m:
                         chk.disagree("parser-layer", j.case(p), o, m[:300])
+            if n:
+                break
         if n == 0:
             chk.fail(j.case(j.base), "the library dies on some partition of this job: %s" % Lline, extra={"cls": "crash"})
 
